@@ -8,6 +8,7 @@ glyph identifiers).  Shares no code and no regular expression with pico8.lua.lex
 lex(src) -> list of Tok, or raises Malformed(reason, offset) for text outside the dialect's lexical
 grammar (such text is outside every property's domain - it is never a violation by itself).
 """
+import re
 from fractions import Fraction
 
 KEYWORDS = frozenset([
@@ -234,12 +235,11 @@ def lex(src):
             if j < 0:
                 raise Malformed('unterminated long string', i)
             body = src[body_start:j - 2 - lvl]
-            if body[:2] in (b'\r\n', b'\n\r'):
-                val = body[2:]
-            elif body[:1] in (b'\n', b'\r'):
-                val = body[1:]
-            else:
-                val = body
+            # Lua 5.2 3.1: every end-of-line sequence in a long string (CR, LF, CR LF, LF CR) is a newline in the value,
+            # and a line break right after the opening bracket is not part of it
+            val = re.sub(br'\r\n|\n\r|\r', b'\n', body)
+            if val[:1] == b'\n':
+                val = val[1:]
             tok = Tok('string', i, j, line, i - line_start, src[i:j], bytes(val), b'[' + b'=' * lvl + b'[')
             toks.append(tok)
             k = i
